@@ -23,7 +23,7 @@ def c05(tier):
         vcov.update(mach.run(verdict, wd, [('cont', 30 if q else 1500)], vlib.seed()))
 
     def relevant(mm, sess, runs):
-        return mm['kind'] in ('conformance', 'corpus')
+        return mm['kind'] in ('conformance', 'corpus', 'abort')
 
     return props.cek_property(
         'C05', tier, plan, relevant, extra_check=steps_check, extra_cov=lambda sessions, ends: {'instruction_traces': vcov},
